@@ -2,6 +2,7 @@ SPECIFICATION Spec
 CONSTANTS
   WapTop <- C_WapTop
   EmptyPlusFieldRaises <- C_EmptyPlusFieldRaises
+  GluedAcceptUnrecognised <- C_GluedAcceptUnrecognised
 INVARIANT ClaimsMatchShape
 INVARIANT Total
 INVARIANT TlsStrict
